@@ -591,3 +591,74 @@ func ParseContracts(file string, src string, pkgName string) ([]*Contract, error
 	}
 	return res, nil
 }
+
+// contractParamNames: the parameter names written in a contract's func line, receiver first - the names its clauses use.
+// Parameters are identified by position, so a renamed parameter or receiver of the code still binds.
+func contractParamNames(sig string) []string {
+	var names []string
+	rest := strings.TrimSpace(sig)
+	group := func(s string) (string, string) { // first parenthesised group of s and what follows it
+		if !strings.HasPrefix(s, "(") {
+			return "", s
+		}
+		depth := 0
+		for i, r := range s {
+			switch r {
+			case '(':
+				depth++
+			case ')':
+				depth--
+				if depth == 0 {
+					return s[1:i], strings.TrimSpace(s[i+1:])
+				}
+			}
+		}
+		return "", s
+	}
+	if strings.HasPrefix(rest, "(") {
+		recv, after := group(rest)
+		f := strings.Fields(recv)
+		if len(f) >= 2 {
+			names = append(names, f[0])
+		} else {
+			names = append(names, "self")
+		}
+		rest = after
+	}
+	if i := strings.Index(rest, "("); i >= 0 {
+		params, _ := group(rest[i:])
+		var pieces []string
+		depth, start := 0, 0
+		for i, r := range params {
+			switch r {
+			case '(', '[', '{':
+				depth++
+			case ')', ']', '}':
+				depth--
+			case ',':
+				if depth == 0 {
+					pieces = append(pieces, strings.TrimSpace(params[start:i]))
+					start = i + 1
+				}
+			}
+		}
+		if strings.TrimSpace(params[start:]) != "" {
+			pieces = append(pieces, strings.TrimSpace(params[start:]))
+		}
+		named := false
+		for _, pc := range pieces {
+			if strings.ContainsAny(pc, " \t") && !strings.HasPrefix(pc, "func") && !strings.HasPrefix(pc, "map[") && !strings.HasPrefix(pc, "chan ") {
+				named = true
+			}
+		}
+		for k, pc := range pieces {
+			if !named {
+				names = append(names, fmt.Sprintf("arg%d", k))
+				continue
+			}
+			f := strings.Fields(pc)
+			names = append(names, f[0])
+		}
+	}
+	return names
+}
